@@ -124,7 +124,7 @@ META = dict(
         "realloc keeps the old contents up to the smaller size (C standard); the grow contract is stated on the recorded (pointer,size) of the realloc call and the (pointer,0,length) of the memset call",
         "history quantifier: wf(memory) is pre- and postcondition of every operation (induction on paper)",
     ],
-    assumptions=["memory object of 32 bytes for loads/stores and 12 bytes for copy/fill/load_data: the functions never read size and are uniform in the object size",
+    assumptions=["E/S emitter contracts: array.c's growth step enters through the contract stub of harness/e_expr.c (discharged on the real array.c by job A.ensure_capacity.4, realloc/calloc being CBMC's library models); stack heights <= 2^24, label stacks <= 2^16; the string builder is the ghost recorder (its real implementation is under contract in C10); operand-stack entries hold valid value types (validated module)", "memory object of 32 bytes for loads/stores and 12 bytes for copy/fill/load_data: the functions never read size and are uniform in the object size",
                  "C compilers translate well-defined C correctly"],
     explanation="R: every plain load/store of w2c2_base.h against the little-endian byte specification with a dfcc-enforced assigns frame, "
                 "wasmMemoryGrow/Allocate arithmetic unbounded in pages/delta/max, copy/fill/load_data with overlap. "
